@@ -821,6 +821,9 @@ class Prover:
                 continue
             if d.endswith("Result::<T, E>::map") and len(ce[3]) == 2:
                 mapped = self.closure_capture_value(A, ce[3][1])
+                if mapped is None and self.closure_returns_len_of_arg(ce[3][1]):
+                    # x.map(|s| s.len()): the Ok payload is the length of x's Ok payload
+                    mapped = ("len", ("okval", ce[3][0]))
                 ce = ce[3][0]
                 continue
             break
@@ -854,6 +857,29 @@ class Prover:
             self.record(fn, key, "postcondition", "proved", "postcondition follows from the callee's at this tail return", where_t)
         else:
             self.record(fn, key, "postcondition", "violation", "postcondition at tail return: need %s" % self._fmt_goal(A, bad), where_t)
+
+    def closure_returns_len_of_arg(self, cexpr):
+        """`|s| s.len()` — the closure returns the length of its (slice) argument"""
+        if cexpr[0] != "agg" or cexpr[1] != "closure" or not cexpr[2]:
+            return False
+        g = self.F.fn(cexpr[2])
+        if g is None or g.argc != 2:
+            return False
+        try:
+            from .lexpr import LResolver
+            R2 = LResolver(g, self.E.pts[g.path])
+            e = strip_bb(R2.local(0))
+        except Exception:
+            return False
+        if e[0] == "len":
+            x = e[1]
+            while x[0] in ("unsize", "sized") or (x[0] in ("ref", "place") and False):
+                x = x[1]
+            if x == ("arg", 2):
+                return True
+            if x[0] in ("ref", "place", "aref") and all(r == ("ext", 2) or r == ("loc", 2) for r, p in x[1]):
+                return True
+        return False
 
     def closure_capture_value(self, A, cexpr):
         """for `|..| captured_var`: the caller-side expression of the captured value, else None"""
